@@ -21,3 +21,35 @@ package nat
 //@   property C13
 //@ layout natAffinityValue: affinityValueSize == csizeof("struct calico_nat_affinity_val")
 //@   property C13
+
+//@ -- IPv4 NAT frontend key: the Go accessors and the constructor read/write each field at the kernel struct's offset
+//@ -- (struct calico_nat_key is packed: the source address sits at 11, not at an aligned offset)
+//@ func (FrontendKey).Proto
+//@   property C13
+//@   ensures res == k[coffsetof("struct calico_nat_key", "protocol")]
+//@   assigns nothing
+//@ func (FrontendKey).Port
+//@   property C13
+//@   ensures res == le16(k[coffsetof("struct calico_nat_key", "port") + 0], k[coffsetof("struct calico_nat_key", "port") + 1])
+//@   assigns nothing
+//@ func (FrontendKey).PrefixLen
+//@   property C13
+//@   ensures res == uint32(k[coffsetof("struct calico_nat_key", "prefixlen") + 0]) | uint32(k[coffsetof("struct calico_nat_key", "prefixlen") + 1]) << 8 | uint32(k[coffsetof("struct calico_nat_key", "prefixlen") + 2]) << 16 | uint32(k[coffsetof("struct calico_nat_key", "prefixlen") + 3]) << 24
+//@   assigns nothing
+//@ func (FrontendKey).srcAddr
+//@   property C13
+//@   option safety off
+//@   ensures istype(res, ip.V4Addr) && (forall j int in 0..4 :: cast(res, ip.V4Addr)[j] == k[coffsetof("struct calico_nat_key", "saddr") + j])
+//@ ghost c13S0 uint8
+//@ ghost c13S1 uint8
+//@ ghost c13S2 uint8
+//@ ghost c13S3 uint8
+//@ ghost c13SLen int
+//@ func NewNATKeySrc
+//@   property C13
+//@   option safety off
+//@   option stable []byte
+//@   ghost at call To4#2: c13SLen = len(res) ; c13S0 = res[0] ; c13S1 = res[1] ; c13S2 = res[2] ; c13S3 = res[3]
+//@   ensures res[coffsetof("struct calico_nat_key", "protocol")] == protocol
+//@   ensures le16(res[coffsetof("struct calico_nat_key", "port") + 0], res[coffsetof("struct calico_nat_key", "port") + 1]) == port
+//@   ensures c13SLen == 4 ==> (res[coffsetof("struct calico_nat_key", "saddr") + 0] == c13S0 && res[coffsetof("struct calico_nat_key", "saddr") + 1] == c13S1 && res[coffsetof("struct calico_nat_key", "saddr") + 2] == c13S2 && res[coffsetof("struct calico_nat_key", "saddr") + 3] == c13S3)
